@@ -598,6 +598,13 @@ func (b *builder) addFixed() {
 				{Name: "Put", Params: []Param{{"", k}, {"", e}}},
 				{Name: "Each", Params: []Param{{"fn", &T{Kind: KFunc, Params: []*T{k, e}, Results: []*T{bl}}}}}}})
 	}
+	for _, d := range t.Deps {
+		if d.Fixed {
+			mk("FxAliasSame",
+				Method{Name: "Use", Params: []Param{{"w", pkgT(d, d.Struct)}}, Results: []Param{{"", er}}},
+				Method{Name: "Make", Results: []Param{{"", ptr(pkgT(d, d.Struct))}}})
+		}
+	}
 	// embedding-only: all methods come from embedded interfaces
 	t.Ifaces = append(t.Ifaces, &Iface{Name: "FxEmbedOnly", File: file, Exportable: true, Tags: []string{"fixed"},
 		Embeds: []*T{local(t.Locals.Emb), local(t.Locals.StrIf)}})
@@ -853,7 +860,7 @@ func NewMatrixTree(kind string, hz Hazards) *Tree {
 		}
 		t.ExtraDecls = decl.String()
 		add("MxReserved", ms)
-	case "stale":
+	case "stale", "stale-regen":
 		// two packages named client, each imported bare by a different source file; a parameter named client that
 		// is allocated after both were re-aliased must keep its name, one allocated in between must not
 		for _, dir := range []string{"a/client", "b/client"} {
@@ -882,6 +889,21 @@ func NewMatrixTree(kind string, hz Hazards) *Tree {
 			&Iface{Name: "StLogA", File: 0, Exportable: true, Tags: []string{"matrix"}, Methods: []Method{{Name: "Audit", Params: []Param{{"l", pkgT(la, "Thing")}}}}},
 			&Iface{Name: "StLogB", File: 1, Exportable: true, Tags: []string{"matrix"}, Methods: []Method{{Name: "Trace", Params: []Param{{"l", pkgT(lb, "Thing")}}, Results: []Param{{"", er}}}}})
 		t.FixedRequests = [][]string{{"StA", "StB"}, {"StB", "StA"}, {"StC", "StB"}, {"StA", "StC", "StB"}, {"StLogA", "StLogB"}, {"StLogB", "StLogA"}}
+		if kind == "stale-regen" {
+			// regeneration corpus: without the parameters named like the re-aliased package (KF-regeneration-alias-feedback)
+			var keep []*Iface
+			for _, i := range t.Ifaces {
+				if i.Name == "StC" {
+					continue
+				}
+				if i.Name == "StB" {
+					i.Methods = i.Methods[:1]
+				}
+				keep = append(keep, i)
+			}
+			t.Ifaces = keep
+			t.FixedRequests = [][]string{{"StA", "StB"}, {"StB", "StA"}, {"StLogA", "StLogB"}, {"StLogB", "StLogA"}, {"StA", "StLogB", "StB"}}
+		}
 	case "numbered":
 		names := []string{"s", "s1", "s2", "s3", "_"}
 		var ms []Method
